@@ -91,6 +91,17 @@ func Seal(base *Hello, echPos int, key *KeyMat, suite Suite, pt []byte, sender *
 	return SealAs(base, echPos, key, key.ID, suite, pt, sender, recVer)
 }
 
+// forceEnc, when set, is the enc field written into (and authenticated with) the extension, whatever the sender.
+var forceEnc []byte
+
+// SealRepeatingEnc seals a second hello with the first hello's HPKE context like Seal, but the extension repeats
+// a non-empty enc (which the AAD then covers): authentic in every respect except that enc must be empty.
+func SealRepeatingEnc(base *Hello, echPos int, key *KeyMat, suite Suite, pt []byte, sender *hpke.Sender, enc []byte, recVer uint16) *Sealed {
+	forceEnc = enc
+	defer func() { forceEnc = nil }()
+	return Seal(base, echPos, key, suite, pt, sender, recVer)
+}
+
 // SealAs is Seal with the config_id field of the extension chosen freely: the payload is
 // authentically sealed to key (its public key, its config in the info string, the AAD of this very
 // hello), but the extension names configID.
@@ -122,6 +133,9 @@ func SealInfo(base *Hello, echPos int, key *KeyMat, configID uint8, info []byte,
 			panic(err)
 		}
 		s.Enc, sender = enc, snd
+	}
+	if forceEnc != nil {
+		s.Enc = forceEnc
 	}
 	s.Sender = sender
 	o := *base
